@@ -233,6 +233,8 @@ def run(ctx: Ctx) -> None:
     for k in range(ctx.pick(24, 300)):
         items.append({"id": f"adv{base + k}", "kind": "adv", "seed": 900000 + base + k, "steps": ctx.pick(40, 60), "weight": 1,
                       "with_route": False, "with_index": True})
+        if k % 3 == 1:
+            items[-1]["cosim"] = ["unknown"]    # ... or to "modify" stations / bases the simulation does not hold
         if k % 3 == 0:
             items[-1]["cosim"] = ["move"]       # a co-simulation user tries to move stations / bases through the safe API
     items.append({"id": "denver_demo", "kind": "shipped", "scenario": str(SCEN_DENVER / "denver_demo.yaml"),
